@@ -42,10 +42,10 @@ func uid(_ spec.RoomID, s spec.SenderID) (*spec.UserID, error) {
 	return spec.NewUserID(string(s), true)
 }
 
-var tamperNames = []string{"none", "content-unprotected", "content-protected", "top-junk", "hash-altered", "hash-removed", "unsigned", "age_ts", "outlier", "destinations", "redacts-top", "depth", "sticky", "msc4354_sticky"}
+var tamperNames = []string{"none", "content-unprotected", "content-protected", "top-junk", "hash-altered", "hash-removed", "unsigned", "age_ts", "outlier", "destinations", "redacts-top", "depth", "sticky", "msc4354_sticky", "event_id-top"}
 
 // redactable[t]: the tampering touches only material that redaction removes or that is stripped on receipt
-var redactableOnly = map[string]bool{"none": true, "content-unprotected": true, "top-junk": true, "unsigned": true, "age_ts": true, "outlier": true, "destinations": true, "sticky": true, "msc4354_sticky": true}
+var redactableOnly = map[string]bool{"none": true, "content-unprotected": true, "top-junk": true, "unsigned": true, "age_ts": true, "outlier": true, "destinations": true, "sticky": true, "msc4354_sticky": true, "event_id-top": true}
 
 func set(v *refjson.Value, key string, val *refjson.Value) *refjson.Value {
 	out := &refjson.Value{Kind: refjson.Object}
@@ -118,6 +118,11 @@ func tamper(version string, v *refjson.Value, t string) (*refjson.Value, bool) {
 		return set(v, "redacts", lit(`"$forged"`)), true
 	case "depth":
 		return set(v, "depth", lit(`77`)), true
+	case "event_id-top": // event formats 2 and 3 carry no event_id: a server that adds one has it stripped on receipt
+		if row.EventFormat == 1 {
+			return nil, false
+		}
+		return set(v, "event_id", lit(`"$forged_event_id"`)), true
 	case "sticky", "msc4354_sticky": // top-level keys outside every keep-list that an accessor (IsSticky / StickyEndTime) reads
 		return set(v, t, lit(`{"duration_ms":600000}`)), true
 	}
@@ -304,7 +309,7 @@ func runCase(r *harness.Run, c c04Case) error {
 func main() { harness.Main("C04", "model_checking", run) }
 
 func run(r *harness.Run) {
-	r.Rule("every built event of the proto-event alphabet (9 type/state-key shapes x contents) x all 16 room versions x every single and every pair of 13 tamperings (unprotected / protected content key, extra top-level key, hash altered / removed, unsigned, age_ts, outlier, destinations, top-level redacts, depth, top-level sticky / msc4354_sticky) plus the untampered event, parsed with NewEventFromUntrustedJSON; additionally each tampered copy is parsed after the genuine copy and again after another tampered copy (history sensitivity). Oracle: Redacted() <=> reference content-hash mismatch; JSON()/Content()/Redacts()/Unsigned()/StickyEndTime()/IsSticky()/headered JSON equal the reference redaction (refredact) resp. the intact event; redactable-only tampering keeps the event ID and the signature verdict. Non-trivial = distinct (version, event, tampering set).")
+	r.Rule("every built event of the proto-event alphabet (9 type/state-key shapes x contents) x all 16 room versions x every single and every pair of 14 tamperings (incl. an added top-level event_id in formats 2 / 3) (unprotected / protected content key, extra top-level key, hash altered / removed, unsigned, age_ts, outlier, destinations, top-level redacts, depth, top-level sticky / msc4354_sticky) plus the untampered event, parsed with NewEventFromUntrustedJSON; additionally each tampered copy is parsed after the genuine copy and again after another tampered copy (history sensitivity). Oracle: Redacted() <=> reference content-hash mismatch; JSON()/Content()/Redacts()/Unsigned()/StickyEndTime()/IsSticky()/headered JSON equal the reference redaction (refredact) resp. the intact event; redactable-only tampering keeps the event ID and the signature verdict. Non-trivial = distinct (version, event, tampering set).")
 	r.Assume("sha256/ed25519 trusted", "signature verdicts are taken through a static verifier holding the signers' keys (key validity is C06/C12)")
 	r.OnReplay("case", func(raw json.RawMessage) error {
 		var c c04Case
